@@ -6,9 +6,12 @@
 (* marks the item Archived; the seed can only be finished once all its items are Archived / Failed.  *)
 (* A rejected capture is dropped (the library signals the feedback channel as well).                *)
 (* SyncWait = FALSE models an archiver that does not wait (the mutation the property guards against).*)
+(* Retried is the set of fetches whose answer made the archiver retry or give up (5xx, 408, 425, 429):  *)
+(* they are captures like any other.  WaitRetried = FALSE is the pinned commit, which went on without    *)
+(* waiting for their records (repaired: it waits for every attempt).                                    *)
 EXTENDS Integers, Sequences, FiniteSets, TLC
 
-CONSTANTS Items, Writers, SyncWait
+CONSTANTS Items, Writers, SyncWait, Retried, WaitRetried
 Outcomes == {"accept", "reject"}
 
 VARIABLES ipc,        \* item: "fetch" | "captured" | "decided" | "queued" | "written" | "dropped" (library side)
@@ -28,7 +31,7 @@ Init == /\ ipc = [i \in Items |-> "fetch"] /\ apc = [i \in Items |-> "doing"]
 
 \* the response has been fully read by the archiver (ProcessBody reads to EOF): the capture is complete
 Capture(i) == /\ ipc[i] = "fetch" /\ ipc' = [ipc EXCEPT ![i] = "captured"]
-              /\ apc' = [apc EXCEPT ![i] = IF SyncWait THEN "waiting" ELSE "archived"]
+              /\ apc' = [apc EXCEPT ![i] = IF SyncWait /\ (i \notin Retried \/ WaitRetried) THEN "waiting" ELSE "archived"]
               /\ UNCHANGED <<policy, fb, wq, whand, disk, finished>>
 LibDiscard(i) == /\ ipc[i] = "captured"
                  /\ IF policy[i] = "reject"
